@@ -75,7 +75,7 @@ def nostd_build(repo):
         subprocess.check_call(['rsync', '-a', '--exclude', 'target', '--exclude', '.git', '--exclude', 'fuzz', repo + '/', d + '/'])
         env = dict(os.environ, CARGO_NET_OFFLINE='true')
         env.pop('RUSTUP_TOOLCHAIN', None)
-        p = subprocess.run(['cargo', 'check', '--lib', '--no-default-features', '--offline', '-q'], cwd=d, env=env, capture_output=True, text=True, timeout=600)
+        p = subprocess.run(['cargo', 'check', '--lib', '--no-default-features', '--offline', '-q'], cwd=d, env=env, capture_output=True, text=True, errors="replace", timeout=600)
         ok = p.returncode == 0
         return dict(obligation='build:no-default-features', where='Cargo features', status='pass' if ok else 'fail',
                     detail='' if ok else (p.stdout + p.stderr)[-1500:],
